@@ -1396,14 +1396,15 @@ def run_engine_b(spec):
                 o.violate("run_carries_on", "B:run_aborted_although_failures_within_max_failures",
                           {"error": msg, "failures_notified": n_fail, "max_failures": p["max_failures"], "kind": spec["kind"]})
         else:
-            tag = ":resume_of_non_paused_trial" if "Cannot resume trial_id" in msg else ""
+            tag = f":resume_of_non_paused_trial:{spec['kind']}" if "Cannot resume trial_id" in msg else ""
             o.violate("run_carries_on", f"B:tuner_run_raised:{type(r.exc).__name__}{tag}", {"error": msg, "kind": spec["kind"], "backend": spec["backend"]})
     elif r.exc is None and n_fail > 0:
         o.count("B:runs_carried_on_after_failure")
     sub = Obs()
     sig = c01.check_trace(sub, r.rec.events, p["n_workers"], True, spec["kind"], exc=r.exc, failure_must_be_notified=True)
     for v in sub.violations:
-        o.violate(v["clause"], "B:" + v["mechanism"], v["detail"])
+        m = v["mechanism"] + (f":{spec['kind']}" if v["mechanism"].startswith("resume_of_trial_in_state_") else "")
+        o.violate(v["clause"], "B:" + m, v["detail"])
     o.count("B:end_notifications_decided", sub.counters.get("decided:end_notifications", 0))
     o.count("B:external_stops_notified", sub.counters.get("external_stops_notified", 0))
     o.count("B:failures_notified", sub.counters.get("failures_notified", 0))
